@@ -43,6 +43,9 @@ def main():
     d = json.load(open(op))
     seen = set()
     for f in d["failures"]:
+        if f.get("prop") == "C12":          # span of a diagnostic: C12's business (checks/C12.py runs the same arrangements)
+            c.notes.append("a semantic diagnostic of an arrangement has an invalid span (reported by C12)")
+            continue
         key = (f["kind"], f["what"], f.get("site", ""))
         if key in seen:
             continue
